@@ -1,5 +1,6 @@
 /- the descriptor shuffle of the regenerated forkAndExecInChild, run on an abstract descriptor table -/
 import GoSandbox.Model.ForkOpts
+import GoSandbox.Model.FdShuffle
 namespace GoSandbox.Model.FdShuffleRun
 open GoSandbox.Model.ForkOpts GoSandbox.Model.ForkChildRun GoSandbox.GoLite
 
@@ -40,6 +41,22 @@ def okLayout (files : List Int) (p0 p1 exec : Nat) (openFds : List Nat) (vfork :
   | .ok r => r.table == expectTable files && r.exited.isNone &&
       (if exec > 0 then r.execFdFile == some (1000 + exec) else r.execFdFile.isNone) &&
       (!vfork || r.callerExec == Int.ofNat exec)
+  | .error _ => false
+
+/-! ### the hand model (Model/FdShuffle.lean) on the same layouts -/
+
+/-- the hand model's answer for a layout: (descriptor table after exec, file behind the exec descriptor) -/
+def handShuffle (files : List Int) (p1 exec : Nat) (openFds : List Nat) : List (Nat × Nat) × Option Nat :=
+  let t : FdShuffle.Table := fun k => if openFds.contains k then some (1000 + k, true) else none
+  let fl : List (Option Nat) := files.map (fun f => if f == marker then none else some f.toNat)
+  let o := FdShuffle.shuffle t fl p1 (if exec > 0 then some exec else none)
+  let hi := (openFds.foldl max 0) + files.length + 8
+  ((List.range hi).filterMap (fun k => (FdShuffle.atExec o.t k).map (fun f => (k, f))), o.exec.bind (FdShuffle.fileAt o.t))
+
+/-- regenerated code and hand model agree on a layout -/
+def handAgrees (files : List Int) (p0 p1 exec : Nat) (openFds : List Nat) (vfork : Bool) : Bool :=
+  match shuffle files p0 p1 exec openFds vfork with
+  | .ok r => r.table == (handShuffle files p1 exec openFds).1 && r.execFdFile == (handShuffle files p1 exec openFds).2
   | .error _ => false
 
 end GoSandbox.Model.FdShuffleRun
